@@ -9,8 +9,17 @@
    TXS     = (id originok originblocked delegok delegblocked tag ref exp type features unused gas feeok dep known depmeta)*
              known = chain.HasTransaction(id, ref) on the parent chain; depmeta = n | 0 | 1 (GetTransactionMeta(dep).Reverted) | -
    EXEC    = (gas reverted digest)* per tx, or "e - -" when ExecuteTransaction fails
-   V cfg | PARENT | pos total | CANDS | HASH | HEADER now | txsroot | TXS | EXEC | receiptsroot sanity rewardsok stateroot
-       -> accept | future | critical R | other R | panic
+   V cfg | PARENT | pos total | CANDS | HASH | HEADER now | txsroot | TXS | EXEC | receiptsroot sanity rewardsok stateroot rrfix
+       -> accept | future | critical R | other R | panic         (rrfix: correction-table root for this block id, or -)
+   K mbp | (master endorsor active funded)*
+       -> masters of authority.Candidates(check, mbp) ; masters picked by NewCandidates(all).Pick(check)
+   C hayabusa mbp | (master endorsor active funded)* | none | (master endorsor active)* | sat idx* | (addr flag)* | auth params staker benefset | parties*
+       one validation step of the warm PoA validator: fresh reads at the parent, the cache entry for the parent (or none),
+       the scheduler's updates and the receipts' events of the accepted block
+       -> proposers (master:active)* | none | entry (master endorsor active)* ; idx*
+   S hk | none | (addr active weight benef)* | (addr active weight benef)* | upsnil benefset
+       PoS: housekeeping flag, cache entry for the parent, fresh leader group, whether the scheduler made no updates, BeneficiarySet
+       -> used (addr active weight benef)* | parent kept|dropped | none | entry (addr active weight benef)*
    P cfg | PARENT | pos total | CANDS | HASH | me benef target fuel now vote siglen signer beta | txsroot receiptsroot stateroot rewardsok | TXS | EXEC
        -> none | HEADER-without-number ; adopted ids *)
 open Model
@@ -98,7 +107,7 @@ let pview_of posl cands hsec = match posl with
 
 let handle line =
   match split_on "|" (split_ws line) with
-  | [ "V" :: cfg; parent; posl; cands; hsec; hdr_now; [txsroot]; txs; exec; [rroot; sanity; rewok; sroot] ] ->
+  | [ "V" :: cfg; parent; posl; cands; hsec; hdr_now; [txsroot]; txs; exec; [rroot; sanity; rewok; sroot; rrfix] ] ->
     let cfg = parse_cfg cfg and parent = parse_header parent in
     let pv = pview_of posl cands hsec in
     let n = List.length hdr_now in
@@ -108,7 +117,7 @@ let handle line =
     let exec_fn _ st _ =
       let i = int_of_n st in
       if i < Array.length table then (match table.(i) with Some r -> Some (succ_n st, r) | None -> None) else None in
-    let b = { b_header = h; b_txs = List.map (fun (t, _, _) -> t) txs } in
+    let b = { b_header = h; b_txs = List.map (fun (t, _, _) -> t) txs; b_rr_fix = opt_n rrfix } in
     (try
        (match process exec_fn (fun _ _ st _ -> st)
                 (fun _ st -> if bool_of_tok rewok then Some st else None)
@@ -129,7 +138,7 @@ let handle line =
     List.iter2 (fun (t, _, _) e -> Hashtbl.replace tbl (hex_of_n t.t_id) e) txs ex;
     let exec_fn _ st t = match Hashtbl.find_opt tbl (hex_of_n t.t_id) with
       | Some (Some r) -> Some (succ_n st, r) | _ -> None in
-    let sr = { sr_len = n_of_hex siglen; sr_signer = opt_n signer; sr_beta = parse_beta beta } in
+    let sr = { sr_len = n_of_hex siglen; sr_signer = opt_n signer; sr_beta = parse_beta beta; sr_rr_fix = None } in
     (try
        (match pack_block exec_fn (fun _ _ st _ -> st)
                 (fun _ st -> if bool_of_tok rewok then Some st else None)
@@ -140,6 +149,55 @@ let handle line =
         | Some ((b, _), _) ->
           show_header b.b_header ^ " ; " ^ String.concat " " (List.map (fun t -> hex_of_n t.t_id) b.b_txs))
      with NoHash -> "nohash")
+  | [ ["K"; mbp]; all ] ->
+    let rec go = function
+      | m :: e :: a :: f :: rest -> ({ ac_master = n_of_hex m; ac_endorsor = n_of_hex e; ac_active = bool_of_tok a }, bool_of_tok f) :: go rest
+      | [] -> [] | _ -> failwith "bad K list" in
+    let l = go all in
+    let funded m e = List.exists (fun (c, f) -> f && hex_of_n c.ac_master = hex_of_n m && hex_of_n c.ac_endorsor = hex_of_n e) l in
+    let cs = List.map fst l in
+    let show l = String.concat " " (List.map (fun c -> hex_of_n c.ac_master) l) in
+    show (cands_walk funded (n_of_hex mbp) cs N0) ^ " ; " ^ show (snd (pick (new_candidates cs) funded (n_of_hex mbp)))
+  | [ ["C"; hay; mbp]; all; entry_list; sat; ups; [auth; params; staker; bset]; parties ] ->
+    let rec go4 = function
+      | m :: e :: a :: f :: rest -> ({ ac_master = n_of_hex m; ac_endorsor = n_of_hex e; ac_active = bool_of_tok a }, bool_of_tok f) :: go4 rest
+      | [] -> [] | _ -> failwith "bad C list" in
+    let rec go3 = function
+      | m :: e :: a :: rest -> { ac_master = n_of_hex m; ac_endorsor = n_of_hex e; ac_active = bool_of_tok a } :: go3 rest
+      | [] -> [] | _ -> failwith "bad entry list" in
+    let l = go4 all in
+    let funded m e = List.exists (fun (c, f) -> f && hex_of_n c.ac_master = hex_of_n m && hex_of_n c.ac_endorsor = hex_of_n e) l in
+    let cache = match entry_list with
+      | ["none"] -> []
+      | el -> [ (0, { ce_list = go3 el; ce_sat = List.map (fun i -> nat_of_int (int_of_string i)) sat }) ] in
+    let ev = { ev_authority = bool_of_tok auth; ev_params = bool_of_tok params; ev_staker = bool_of_tok staker;
+               ev_beneficiary_set = bool_of_tok bset; ev_parties = List.map n_of_hex parties } in
+    let upl = List.map (fun (a, f) -> (n_of_hex a, bool_of_tok f)) (pairs ups) in
+    let used = ref [] in
+    let judge props _ _ = used := props; ((), Some (upl, ev)) in
+    let (cache', ()) = poa_step (fun a b -> a = b) (fun _ -> List.map fst l) (fun _ -> funded) (fun _ -> n_of_hex mbp)
+                         (fun _ -> bool_of_tok hay) judge cache 0 1 in
+    let props = String.concat " " (List.map (fun c -> hex_of_n c.ac_master ^ ":" ^ tok_of_bool c.ac_active) !used) in
+    (match pget (fun a b -> a = b) cache' 1 with
+     | None -> "proposers " ^ props ^ " | none"
+     | Some e ->
+       "proposers " ^ props ^ " | entry " ^
+       String.concat " " (List.map (fun c -> hex_of_n c.ac_master ^ " " ^ hex_of_n c.ac_endorsor ^ " " ^ tok_of_bool c.ac_active) e.ce_list)
+       ^ " ; " ^ String.concat " " (List.map (fun i -> string_of_int (int_of_nat i)) e.ce_sat))
+  | [ ["S"; hk]; cached; fresh; [upsnil; bset] ] ->
+    let rec go = function
+      | a :: act :: w :: b :: rest ->
+        { cd_p = { p_addr = n_of_hex a; p_active = bool_of_tok act; p_weight = n_of_hex w }; cd_key = N0; cd_endorsor = N0; cd_benef = opt_n b } :: go rest
+      | [] -> [] | _ -> failwith "bad leader list" in
+    let show l = String.concat " " (List.map (fun c ->
+        hex_of_n c.cd_p.p_addr ^ " " ^ tok_of_bool c.cd_p.p_active ^ " " ^ hex_of_n c.cd_p.p_weight ^ " " ^ show_opt c.cd_benef) l) in
+    let cache = match cached with ["none"] -> [] | l -> [ (0, go l) ] in
+    let ev = { ev_authority = false; ev_params = false; ev_staker = false; ev_beneficiary_set = bool_of_tok bset; ev_parties = [] } in
+    let used = ref [] in
+    let judge ls _ _ = used := ls; ((), Some ((if bool_of_tok upsnil then [] else [ (N0, false) ]), ev)) in
+    let (cache', ()) = pos_step (fun a b -> a = b) (fun _ -> bool_of_tok hk) (fun _ -> go fresh) judge cache 0 1 in
+    "used " ^ show !used ^ " | parent " ^ (match sget (fun a b -> a = b) cache' 0 with Some _ -> "kept" | None -> "dropped")
+    ^ " | " ^ (match sget (fun a b -> a = b) cache' 1 with None -> "none" | Some l -> "entry " ^ show l)
   | l -> failwith ("bad line: " ^ string_of_int (List.length l) ^ " sections")
 
 let () = iter_lines handle
